@@ -156,8 +156,14 @@ def execute(spec):
             writes += 1
             live = max(live, sum(1 for o in r["obs"] if o is not None))
         wsteps.append({"m": m, "desc": {k: v for k, v in r["st"].items()} | {"res": r["res"]}, "obs": [slim(o) for o in r["obs"]]})
-    return {"fam": spec["fam"], "case": {"steps": wsteps}, "impl": {"steps": len(steps), "writes": writes, "live": live},
-            "_steps": steps}
+    out = {"fam": spec["fam"], "case": {"steps": wsteps}, "impl": {"steps": len(steps), "writes": writes, "live": live},
+           "_steps": steps}
+    for r in recs:
+        c = H.crash_of(r["st"], r["res"])
+        if c:
+            out["py_fail"] = c
+            break
+    return out
 
 
 def nontrivial(spec, wire):
